@@ -122,6 +122,11 @@ func checkC12(w *World, r *Report) {
 	g("C3-standby", "cancellation only while the auction is StandBy", "an opened auction with bids can be cancelled, stranding the bidders' reservations",
 		enumCases(w, "AuctionStatus", "status", func(t *Term, v ssa.Value) bool { return isField(t, "Status") && fromColl(t.Args[0], "Auction") }, func(v int64) bool { return v == stStandBy }), "enum:status")
 
+	// "once an auction has opened nobody can cancel it": opening is done by the block hook that runs before the block's
+	// transactions (BeginBlock), for StartTime ≤ BlockTime — otherwise a cancel in the opening block still sees StandBy
+	r.Sub(checkC07, "BB-WIRE")
+	r.Sub(checkC08, "TIME-POL")
+
 	// ---------------------------------------------------------------- CN-EFFECT
 	for _, typ := range []int64{1, 2} {
 		typ := typ
